@@ -13,7 +13,8 @@ def run(tier):
     po = common.proof_obligations("GasolVerif.Proofs.NormSound", THEOREMS)
     violations = [{"kind": "broken-proof-obligation", "what": b, "no_failing_input": True, "input": b} for b in po["broken"]]
     import gen
-    res = c02.collect(tier, sd + 2000, rng, greedy=True, extra=gen.discount_corpus())
+    pinned = set(gen.discount_corpus() + ["DUP3 MLOAD DUP4 MULMOD SWAP2", "DUP3 MLOAD DUP4 ADDMOD SWAP2", "DUP2 MLOAD DUP3 MULMOD"])
+    res = c02.collect(tier, sd + 2000, rng, greedy=True, extra=gen.discount_corpus() + ["DUP3 MLOAD DUP4 MULMOD SWAP2", "DUP3 MLOAD DUP4 ADDMOD SWAP2", "DUP2 MLOAD DUP3 MULMOD"])
     c = Counter()
     reqs, meta = [], []
     for t, r, st in res:
@@ -68,7 +69,7 @@ def run(tier):
         ids = [u[0] for u in e["uinstrs"]]
         k = max(1, min(sk, 16))
         vocab = ids + ["POP"] + ["DUP%d" % i for i in range(1, k + 1)] + ["SWAP%d" % i for i in range(1, k + 1)]
-        if b0 > 5 or len(vocab) ** b0 > (30000 if tier == "quick" else 300000):
+        if b0 > 5 or len(vocab) ** b0 > (30000 if tier == "quick" and t["text"] not in pinned else 300000):
             c["undecided:witness-outside-bounds-and-too-large-to-enumerate"] += 1
             continue
         for L in range(0, b0 + 1):
@@ -112,10 +113,39 @@ def run(tier):
     for o, n in zip(drv.batch(creqs), cmeta):
         if o.startswith("ok") and int(o[3:]) <= (undecided[n][1]["bounds"].get("max_sk_sz") or 0):
             relaxed.add(n)
+    # classify: the stack bound is an estimate (compute_vars); is the length bound feasible with the height the original block reaches?
+    sreqs, smeta = [], []
+    orig_peak = {}
+    for n in infeasible:
+        if n in relaxed:
+            continue
+        t, e = undecided[n]
+        b = e["bounds"]
+        b0, sk = b.get("init_progr_len") or 0, b.get("max_sk_sz") or 0
+        ids = [u[0] for u in e["uinstrs"]]
+        k = max(1, min(sk + 1, 16))
+        vocab = ids + ["POP"] + ["DUP%d" % i for i in range(1, k + 1)] + ["SWAP%d" % i for i in range(1, k + 1)]
+        if b0 <= 6 and len(vocab) ** b0 <= 600000:
+            for L in range(0, b0 + 1):
+                for seq in itertools.product(vocab, repeat=L):
+                    sreqs.append("REALIZES\t%s\t%s" % ("\t".join(e["spec"]), ",".join(seq)))
+                    smeta.append(n)
+    least_peak = {}
+    for o, n in zip(drv.batch(sreqs), smeta):
+        if o.startswith("ok"):
+            pk = int(o[3:])
+            least_peak[n] = min(least_peak.get(n, 99), pk)
+    stack_short = {n for n in least_peak if least_peak[n] <= (undecided[n][1]["bounds"].get("max_sk_sz") or 0) + 2}
     for n in infeasible:
         t, e = undecided[n]
         b = e["bounds"]
-        if n in relaxed:
+        if n in stack_short and n not in relaxed:
+            violations.append({"kind": "stack-bound-estimate-below-need", "input": " ".join(e["plain"]), "options": t["opts"],
+                               "what": "no instruction sequence of length <= init_progr_len=%s with stack <= max_sk_sz=%s realizes the specification of %s (%s), "
+                                       "exhaustive over its ids and DUP/SWAP/POP; within the same length bound the least stack height of a realizing sequence "
+                                       "is %d: the published stack bound (an estimate) is below it" % (b.get("init_progr_len"), b.get("max_sk_sz"), " ".join(e["plain"]), t["opts"], least_peak[n]),
+                               "spec": e["spec"]})
+        elif n in relaxed:
             violations.append({"kind": "length-bound-discounted-although-a-source-word-became-unused", "input": " ".join(e["plain"]), "options": t["opts"],
                                "what": "no instruction sequence of length <= init_progr_len=%s with stack <= max_sk_sz=%s realizes the specification of %s (%s), "
                                        "exhaustive over its ids and DUP/SWAP/POP; a rule was applied and the initial stack word(s) %s are no longer used: with one "
